@@ -252,8 +252,9 @@ impl RK23 {
                 // A shortened last step ends on xend itself (x + h can round an ulp off it)
                 x = if last { xend } else { x + h };
 
-                // Prepare dense output
-                if self.dense_output && solout.is_some() {
+                // Prepare dense output (also for a step that reaches a point requested with XOut)
+                let event = xout.map_or(false, |xo| (x - xo) * posneg >= 0.0);
+                if (self.dense_output || event) && solout.is_some() {
                     cont[0..n].copy_from_slice(&ye);
                     for i in 0..n {
                         cont[n + i] = k1[i];
@@ -264,7 +265,6 @@ impl RK23 {
 
                 // Optional callback function
                 if let Some(sol) = solout.as_mut() {
-                    let event = xout.map_or(false, |xo| (x - xo) * posneg >= 0.0);
                     let interpolant = if self.dense_output || event {
                         Some(StepInterpolant::new(&cont, xold, h, Self::interpolate))
                     } else {
